@@ -739,10 +739,11 @@ TRUSTED = ['pyvc symbolic executor; generator Quantity.__unpack evaluated eagerl
            'EXPECTED registration map (contracts/C20.py) is the specification of which function follows which rule']
 ASSUMPTIONS = ['three symbolic base dimensions in the handler contracts / two named bases in the algebra contracts (the code is generic in base names); exponents are arbitrary rationals (reals)',
                'Quantity.__locate, __attribute and the evaluate handler are covered by the registration table only']
-from contracts import C20_ops
-EXTENSIONS = [C20_ops]
+from contracts import C20_ops, C20_strings
+EXTENSIONS = [C20_ops, C20_strings]
 for _m in EXTENSIONS:
     TRUSTED += getattr(_m, 'TRUSTED', [])
     ASSUMPTIONS += getattr(_m, 'ASSUMPTIONS', [])
-NOT_COVERED = ['numerical values in reference units (float arithmetic), the wrapped nutils/numpy functions themselves', 'unit string parsing/formatting round trip, prefix handling (string scanning)',
-               'from_powers naming injectivity, pickling via __getattr__']
+NOT_COVERED = ['numerical values in reference units (float arithmetic), the wrapped nutils/numpy functions themselves']
+for _m in EXTENSIONS:
+    NOT_COVERED += getattr(_m, 'NOT_COVERED', [])
